@@ -140,6 +140,12 @@ Step(e) ==
                          /\ PrintT("VERDICT|" \o ToString(l) \o "|" \o e.op)
                     ELSE /\ st' = Adopt(st, e)
                          /\ PrintT("MISMATCH|" \o ToString(l) \o "|" \o e.op \o "|" \o d)
+    [] e.ev = "end" ->
+         \* Composer::constraints() / the witness count agree with the specification's state
+         /\ st' = st
+         /\ IF Len(st.rows) = e.nr /\ Len(st.vals) = e.nw
+            THEN PrintT("VERDICT|" \o ToString(l) \o "|end")
+            ELSE PrintT("MISMATCH|" \o ToString(l) \o "|end|counts")
     [] OTHER -> st' = st
 
 Next == /\ l <= Len(Rec)
